@@ -29,12 +29,14 @@ from gradysim.simulator.simulation import SimulationBuilder, SimulationConfigura
 from gradysim.simulator.extension.communication_controller import CommunicationController
 
 
-def quiet_logging():
+def quiet_logging(verbose=False):
+    """nothing is printed; `verbose` (scenario flag verboseLogging): the level stays DEBUG, so every log statement
+    of the package is still evaluated and its record handed to a null handler"""
     root = logging.getLogger()
     for h in list(root.handlers):
         root.removeHandler(h)
     root.addHandler(logging.NullHandler())
-    root.setLevel(logging.CRITICAL)
+    root.setLevel(logging.DEBUG if verbose else logging.CRITICAL)
 
 
 def trig_key(n, kind, key, t):
@@ -325,7 +327,7 @@ class Recorder:
         self.positions.append([v3bits(self.sim.get_node(i).position) for i in range(n)])
 
 
-def attach_passthrough_plugin(proto, one_shot):
+def attach_passthrough_plugin(proto, one_shot, interrupt=False):
     """scenario flag dispatcher: the protocol uses a plugin built on the project's dispatcher (as the
     mission / random-trip / statistics plugins are) whose handlers let every call pass. `one_shot`
     handlers unregister themselves the first time they run - also the lifecycle ones. Nothing the
@@ -349,10 +351,14 @@ def attach_passthrough_plugin(proto, one_shot):
     def on_finish(inst):
         if one_shot:
             d.unregister_finish(on_finish)
+        if interrupt:       # lifecycle chains are not interruptible: the protocol's own finish still runs
+            return DispatchReturn.INTERRUPT
 
     def on_initialize(inst):
         if one_shot:
             d.unregister_initialize(on_initialize)
+        if interrupt:
+            return DispatchReturn.INTERRUPT
 
     d.register_handle_timer(on_timer)
     d.register_handle_packet(on_packet)
@@ -371,7 +377,7 @@ def make_protocol_class(rec):
 
         def _attach(self, moment):
             if plug and self._plugin is None and plug.get("when") == moment:
-                self._plugin = attach_passthrough_plugin(self, plug.get("oneShot", False))
+                self._plugin = attach_passthrough_plugin(self, plug.get("oneShot", False), plug.get("interrupt", False))
 
         def initialize(self):
             self._attach("initialize")
@@ -508,6 +514,11 @@ def build(scn, rec, sim_options=None):
     opts = dict(execution_logging=False)
     opts.update(scn.get("simOptions") or {})
     opts.update(sim_options or {})
+    if scn.get("intTime") and scn.get("verboseLogging"):
+        # execution logging renders the clock as `timedelta(seconds=...)`, which cannot represent the integer
+        # regime's instants (beyond 2^53 s; timedelta ends at 8.64e13 s): no verbose logging there
+        opts.pop("debug", None)
+        opts["execution_logging"] = False
     duration = None if cfg["duration"] is None else rec.secs(cfg["duration"])
     late = bool(scn.get("lateConfig"))
     # scenario flag lateConfig: the configuration object is handed to the builder first and its bounds
@@ -603,14 +614,14 @@ def run_impl(scn, behaviour=None, sim_options=None, draw_seed=0, keep_logging=Fa
         try:
             sim = build(scn, rec, sim_options)
             if not keep_logging:
-                quiet_logging()
+                quiet_logging(bool(scn.get("verboseLogging")))
             if after_build is not None:
                 after_build()          # e.g. build (and run) another simulation before this one runs
             drive = scn["drive"]
             shadow = Shadow(scn, behaviour) if scn.get("shadow") else None
             if shadow is not None:
                 if not keep_logging:
-                    quiet_logging()
+                    quiet_logging(bool(scn.get("verboseLogging")))
                 shadow.step(scn["shadow"].get("lead", 0))
             if scn.get("pollDone"):
                 sim.is_simulation_done()       # status query before the first step
@@ -670,7 +681,7 @@ def run_impl(scn, behaviour=None, sim_options=None, draw_seed=0, keep_logging=Fa
             crash = f"{type(e).__name__}: {e}"
         finally:
             if not keep_logging:
-                quiet_logging()
+                quiet_logging(bool(scn.get("verboseLogging")))
     if crash is not None and crash.startswith("Runaway"):
         # a run that had to be stopped by the cap is reported as such; keeping 150 000 observations (and a table
         # row per trigger) of every such run would exhaust the memory when a change makes many scenarios run away
